@@ -1,5 +1,7 @@
 mod util;
 mod abi_mode;
+mod vm;
+mod gateway_mode;
 
 fn main() {
     if std::env::var("AXH_PANICS").is_err() { std::panic::set_hook(Box::new(|_| {})); }
@@ -9,6 +11,8 @@ fn main() {
     let n: usize = args.get(3).and_then(|s| s.parse().ok()).unwrap_or(100);
     match mode {
         "abi" => abi_mode::run(seed, n),
+        "gateway" => gateway_mode::run(seed, n),
+        "keccak" => { use sha3::{Digest, Keccak256}; println!("{}", hex::encode(Keccak256::digest(&hex::decode(&args[2]).unwrap()))); }
         "abi-file" => abi_mode::run_file(&args[2]),
         _ => { eprintln!("usage: axh <mode> <seed> <n>"); std::process::exit(2); }
     }
